@@ -1,8 +1,9 @@
 """C35 Retried backend operations return correct results or fail.
 
-Retry.tla (design model of retry.Backend: retry loop with budget, permanent errors, Save rewind + remove, List
-dedup) is model-checked over all fault scripts up to the bound (every operation x backend kind x feature flag x
-script x tail), four negative twins must be refuted; TLC emits the scripts, the Go driver replays each into the real
+Retry.tla (design model of retry.Backend: retry loop with budget, permanent errors - also after partial data -, Save
+rewind + remove, List dedup over listings whose sizes / order change between attempts) is model-checked over all
+fault scripts up to the bound (every operation x backend kind x feature flag x listing variation x script x tail),
+six negative twins must be refuted; TLC emits the scripts, the Go driver replays each into the real
 retry.Backend over a scripted backend (testing/synctest: real back-off timers in virtual time, fast and regular
 settings, feature flag on and off) and TLC judges every record with RetryProps!RecOK."""
 import concurrent.futures as cf
@@ -43,7 +44,7 @@ def run(ctx):
             op, atomic, script, tail, vary = parse_tla(s)
             fh.write(json.dumps({"op": op, "atomic": atomic, "script": script, "tail": tail, "vary": vary}) + "\n")
     out = ctx.go_test("internal/backend/retry", "^TestVerif_C35$", timeout=2400, env={"VERIF_VECTORS": vec})
-    n, bad, lines = ctx.check_records("RetryProps", os.path.join(out, "recs.ndjson"), shard=5000)
+    n, bad, lines = ctx.check_records("RetryProps", os.path.join(out, "recs.ndjson"), shard=25000 if th else 5000)
     if bad:
         sub = [lines[i - 1] for i in bad[:300]]
         parts = {}
@@ -88,6 +89,7 @@ def run(ctx):
     return verif.finish(ctx, "fault_enumeration", cov, [
         "faults hit the operation under test only; the Remove that Save issues to clean up after a failed attempt always succeeds (if it failed too, nothing could take the partial file away)",
         "Save goes to a name that does not exist yet",
+        "a permanent error may strike before any effect or after part of the data went over (Save, Load); between the attempts of one List the wrapped backend may report other sizes and another order, the set of names is the same and no attempt reports a name twice by itself",
         "'permanent errors are not retried' is judged for the default configuration (feature backend-error-redesign on); with the flag off restic documents the deprecated behaviour (everything but Stat-not-found is retried) and only the other clauses are judged",
         "wrapped backend without HasFlakyErrors; back-off timers run in virtual time (testing/synctest) with both the fast test setting and the regular one (MaxElapsedTime 15 min)",
         "scripts: all sequences of <= %d faults per operation, followed by an error-free backend or by the last fault for ever" % (5 if th else 3)])
